@@ -225,8 +225,10 @@ fn to_bits(ids: &[u32], n: usize, dc: &DocCtx) -> Option<Vec<bool>> {
     }
 }
 
-fn boolean_part(run: &Run, k_max: usize) -> Acc {
-    let cells = valuations(run.thorough());
+/// `small_full`: only the formulas with at most one connective (and the negation extras), on all 8^3 valuations;
+/// otherwise all formulas up to k_max on the tier's valuation universe
+fn boolean_part(run: &Run, k_max: usize, small_full: bool) -> Acc {
+    let cells = valuations(run.thorough() || small_full);
     let atom_sets: Vec<[String; 3]> = vec![
         ["@.p".into(), "@.q".into(), "@.r".into()],
         ["@.p==1".into(), "@.q!=0".into(), "@.r==null".into()],
@@ -235,7 +237,7 @@ fn boolean_part(run: &Run, k_max: usize) -> Acc {
     ];
     let mut memo = vec![None; k_max + 1];
     let mut forms: Vec<F> = vec![];
-    for k in 0..=k_max {
+    for k in 0..=(if small_full { 1.min(k_max) } else { k_max }) {
         forms.extend(trees(k, &mut memo));
     }
     // double and triple negation, and negations nested under a connective (formulas with at most one connective)
@@ -252,7 +254,7 @@ fn boolean_part(run: &Run, k_max: usize) -> Acc {
                 extra.push(F::Not(Box::new(F::And(Box::new(F::Atom(a)), Box::new(nn(f))))));
             }
         }
-        if k_max >= 2 {
+        if k_max >= 2 && !small_full {
             for (i, f) in trees(2, &mut memo).iter().enumerate() {
                 if i % 4 == 0 {
                     extra.push(nn(f));
@@ -467,9 +469,11 @@ fn scoping_part(run: &Run, thorough: bool) -> Acc {
 pub fn run(tier: &str) -> i32 {
     let run = Run::new("C05", tier);
     let k = if run.thorough() { 3 } else { 2 };
-    let a = boolean_part(&run, k);
+    let a = boolean_part(&run, k, false);
+    // quick restricts the big formula set to 5 values per member; the small formulas always see all 8
+    let a2 = if run.thorough() { Acc::new() } else { boolean_part(&run, k, true) };
     let b = scoping_part(&run, run.thorough());
-    let acc = a.merge(b);
+    let acc = a.merge(a2).merge(b);
     run.finish(
         acc,
         "part 1: one cell = (formula, rendering, child valuation): every formula over three atoms with up to k binary connectives and every placement of `!`, rendered with minimal parentheses, fully parenthesised and with blanks, decided for all valuations of (p,q,r) (5^3 quick, 8^3 thorough) by one packed query, for 4 atom assignments x 2 container kinds; oracles: reference model, and Boolean algebra over the implementation's own results for the atoms; part 2: one cell = (scoping query, root value, item); non-trivial = kept children",
